@@ -1268,7 +1268,19 @@ export class TupleRuntype extends BaseRuntype {
       type: "array",
       prefixItems,
       items,
+      // validate() reads a missing element as undefined: only elements that accept it may be left out
+      minItems: this.requiredLength(),
     } as any);
+  }
+  // number of leading elements that must be present: up to the last one that rejects `undefined`
+  private requiredLength(): number {
+    let n = 0;
+    this.prefix.forEach((it, i) => {
+      if (!it.validate({ disallowExtraProperties: false }, undefined)) {
+        n = i + 1;
+      }
+    });
+    return n;
   }
   validate(ctx: ValidateContext, input: unknown): boolean {
     if (Array.isArray(input)) {
